@@ -19,7 +19,7 @@
    modelled state is changed by a handler of those, so the block is atomic here. *)
 From Coq Require Import ZArith List Bool.
 Import ListNotations.
-From GV Require Import Common.Wire.
+From GV Require Import Common.Wire gen.Gen_groups.
 Open Scope Z_scope.
 
 (* ---------- selection expressions (what a group's subset_state can be) ---------- *)
@@ -292,9 +292,137 @@ Fixpoint run_obs (st : state) (ops : list tree) : list tree :=
     end
   end.
 
-(* T 1 [pool; ncolors; T _ ops]  ->  T 0 [observation after each op] *)
+(* ---------- the TRANSLATED functions (coq/gen/Gen_groups.v, regenerated from /repo on every run) as a second machine ----------
+   Definitions only.  C06/GenEquiv.v proves that this machine and the hand model above make the same steps
+   (on every state that satisfies the inductive invariant), and transports the theorems. *)
+Inductive bop : Type :=
+| BAppend (d : Z)             (* dc.append(d) *)
+| BRemove (d : Z)             (* dc.remove(d) *)
+| BNewGroup                   (* dc.new_subset_group() *)
+| BRemoveGroup (g : Z)        (* dc.remove_subset_group(g) *)
+| BClear                      (* dc.clear() *)
+| BExtend (ds : list Z).      (* dc.extend([..]) *)
+Inductive gop : Type :=
+| GBasic (o : bop)
+| GDelayed (ops : list bop).  (* with dc.hub.delay_callbacks(): op; op; ... *)
+
+Definition heap_of (o : outcome) : heap := match o with Done h => h | Raised _ h => h end.
+
+Definition bstep (h : heap) (o : bop) : heap :=
+  match o with
+  | BAppend d => heap_of (DataCollection_append d h)
+  | BRemove d => DataCollection_remove d h
+  | BNewGroup => DataCollection_new_subset_group None None h
+  | BRemoveGroup g => DataCollection_remove_subset_group g h
+  | BClear => DataCollection_clear h
+  | BExtend ds => heap_of (DataCollection_extend ds h)
+  end.
+
+Definition gstep (h : heap) (o : gop) : heap :=
+  match o with
+  | GBasic b => bstep h b
+  | GDelayed ops => hub_resume (fold_left bstep ops (hub_pause h))
+  end.
+
+(* 0 fine, 2 TypeError *)
+Definition gstatus (h : heap) (o : gop) : Z :=
+  match o with
+  | GBasic (BAppend d) => match DataCollection_append d h with Raised _ _ => 2 | Done _ => 0 end
+  | GBasic (BExtend ds) => match DataCollection_extend ds h with Raised _ _ => 2 | Done _ => 0 end
+  | _ => 0
+  end.
+
+Definition ginit (pool ncol : Z) : heap :=
+  mkHeap [] [] (fun _ => []) (fun _ => []) (fun _ => 0) (fun _ => 0) (fun _ => false) (fun _ => false)
+         [] 0 [] pool 0 0 0 ncol [].
+
+(* the property, stated on the heap of the translated machine: exactly one subset per (dataset of the collection, live group),
+   known to both sides; nothing else attached anywhere; exactly the live groups are subscribed to the hub *)
+Record HInv (h : heap) : Prop := mkHInv {
+  hi_data_nodup : NoDup (h_data h);
+  hi_groups_nodup : NoDup (h_groups h);
+  hi_exactly_one : forall d g, In d (h_data h) -> In g (h_groups h) ->
+      exists s, In (s, g) (h_dsubs h d) /\ In (s, d) (h_gsubs h g) /\
+                (forall s', In (s', g) (h_dsubs h d) -> s' = s) /\ (forall s', In (s', d) (h_gsubs h g) -> s' = s);
+  hi_no_others : forall d s g, In (s, g) (h_dsubs h d) -> In d (h_data h) /\ In g (h_groups h);
+  hi_group_lists : forall g s d, In g (h_groups h) -> In (s, d) (h_gsubs h g) -> In d (h_data h);
+  hi_subscribed : map fst (h_subs h) = h_groups h;
+  hi_idle : h_paused h = 0
+}.
+
+Definition dec_bop (t : tree) : option bop :=
+  match t with
+  | T 1 [T d _] => Some (BAppend d)
+  | T 2 [T d _] => Some (BRemove d)
+  | T 3 [] => Some BNewGroup
+  | T 4 [T g _] => Some (BRemoveGroup g)
+  | T 9 [] => Some BClear
+  | T 10 ds => Some (BExtend (map tag ds))
+  | _ => None
+  end.
+
+Fixpoint dec_bops (ts : list tree) : option (list bop) :=
+  match ts with
+  | [] => Some []
+  | t :: r => match dec_bop t, dec_bops r with Some o, Some os => Some (o :: os) | _, _ => None end
+  end.
+
+Definition dec_gop (t : tree) : option gop :=
+  match t with
+  | T 11 ts => match dec_bops ts with Some os => Some (GDelayed os) | None => None end
+  | _ => match dec_bop t with Some o => Some (GBasic o) | None => None end
+  end.
+
+Definition enc_sub (s : sub) : list tree := [leaf (sub_id s); leaf (sub_data s); leaf (sub_group s)].
+Definition enc_msg (m : message) : tree :=
+  match m with
+  | DataCollectionAddMessage d => T 1 [leaf d]
+  | DataCollectionDeleteMessage d => T 2 [leaf d]
+  | SubsetCreateMessage s => T 3 (enc_sub s)
+  | SubsetDeleteMessage s => T 4 (enc_sub s)
+  end.
+Definition enc_event (e : event) : tree :=
+  match e with
+  | EDeliver m => T 10 [enc_msg m]
+  | ERegisterData d => T 11 [leaf d]
+  | ESyncLinks => T 12 []
+  | EIgnoreLinks k => T 13 [leaf k]
+  | ERegistryUnregisterData d => T 14 [leaf d]
+  | ERegistryUnregisterSubset s => T 15 (enc_sub s)
+  end.
+Definition enc_handler (p : mclass * handler) : tree :=
+  T (match fst p with C_DataCollectionAddMessage => 1 | C_DataCollectionDeleteMessage => 2 | C_SubsetMessage => 3 end)
+    [leaf (match snd p with H__add_data => 1 | H__remove_data => 2 end)].
+
+(* same layout as `observe` (positions 0-6), then the hub's subscription table, the events of this step, pause counter, queue *)
+Definition gobserve (status : Z) (h : heap) : tree :=
+  T 0 [ leaf status;
+        zs (h_data h);
+        zs (h_groups h);
+        T 0 (map (fun d => enc_pairs (h_dsubs h d)) (zrange (h_next_did h)));
+        T 0 (map (fun g => T 0 [T 0 []; leaf (h_glabel h g); leaf (h_gcolor h g); enc_pairs (h_gsubs h g)]) (zrange (h_next_gid h)));
+        zs []; zs [];
+        T 0 (map (fun p => T (fst p) (map enc_handler (snd p))) (h_subs h));
+        T 0 (map enc_event (h_trace h));
+        leaf (h_paused h);
+        T 0 (map enc_msg (h_queue h)) ].
+
+Fixpoint grun_obs (h : heap) (ops : list tree) : list tree :=
+  match ops with
+  | [] => []
+  | t :: rest =>
+    match dec_gop t with
+    | None => [err (-2)]
+    | Some o => let h0 := hset_trace [] h in
+                let h' := gstep h0 o in gobserve (gstatus h0 o) h' :: grun_obs h' rest
+    end
+  end.
+
+(* T 1 [pool; ncolors; T _ ops]  ->  T 0 [observation after each op]            (hand model)
+   T 2 [pool; ncolors; T _ ops]  ->  T 0 [observation after each op]            (translated functions) *)
 Definition run_case (t : tree) : tree :=
   match t with
   | T 1 [T pool _; T ncol _; T _ ops] => T 0 (run_obs (init pool ncol) ops)
+  | T 2 [T pool _; T ncol _; T _ ops] => T 0 (grun_obs (ginit pool ncol) ops)
   | _ => err (-2)
   end.
